@@ -415,17 +415,29 @@ pub fn run_sockets(ctx: &Ctx) {
     }
 }
 
-pub fn main(ctx: &Ctx) -> i32 {
+pub fn main(ctx: &Ctx, repo_bin_dir: Option<String>) -> i32 {
     ctx.set_rule("byte streams = request sequences (+partial last message), messages of 8 KiB+-1/16 KiB/100 KiB, and requests+upgrade+payload (0 B-40 KiB); segmentations = every single cut (short streams), every pair of cuts (very short), one-byte-at-a-time, random k-cuts, cuts at 8 KiB buffer boundaries and around the upgrade request; sockets: the same as write boundaries with delays; distinct = (stream hash, cut positions, handler mode/caller); non-trivial = a cut strictly inside the stream and >=1 complete message");
     ctx.assume("reply bytes are compared implementation-against-itself (single chunk vs chunked, same service instance); the tail and the upgraded byte stream are compared with what the harness sent");
     ctx.assume("callers: 'tail-only' = the reference callers (varlink/src/test.rs, examples/ping multiplex) which re-feed only the returned tail; 'keeps-reader' also re-feeds what handle() left unread in the reader it was given");
     ctx.assume("one-line-per-call upgraded handler is judged only for duplication/reordering (statement silent on re-offering unconsumed bytes)");
     run_memory(ctx);
     run_sockets(ctx);
+    ctx.assume("process level: examples/ping's multiplex loop (`ping -m`, the anchored reference caller) is judged against a model of the ping service; streams stay below the socket buffer size because that loop's single non-blocking write of the replies is a documented TODO of the example, not part of this property");
+    match repo_bin_dir {
+        Some(d) => crate::c02mux::run(ctx, &d),
+        None => ctx.inconclusive(json!("c02-mux: VERIF_REPO_BIN not set (the repository's ping binary was not built)")),
+    }
     ctx.finish(ctx.tier.pick(20_000, 500_000))
 }
 
-pub fn replay(ctx: &Ctx, w: &Value) {
+pub fn replay(ctx: &Ctx, w: &Value, repo_bin_dir: Option<String>) {
+    if w.get("engine").and_then(|v| v.as_str()) == Some("c02-mux") {
+        match repo_bin_dir {
+            Some(d) => crate::c02mux::replay(ctx, w, &d),
+            None => ctx.inconclusive(json!("c02-mux: VERIF_REPO_BIN not set")),
+        }
+        return;
+    }
     let bytes = unhex(w.get("stream_hex").and_then(|v| v.as_str()).unwrap_or(""));
     let cuts: Vec<usize> = w.get("cuts").and_then(|v| v.as_array()).map(|a| a.iter().filter_map(|x| x.as_u64().map(|u| u as usize)).collect()).unwrap_or_default();
     let st = Stream { bytes, payload_at: w.get("payload_at").and_then(|v| v.as_u64()).map(|u| u as usize), desc: "replay".into() };
